@@ -42,7 +42,7 @@ COMPONENTS = {
 def tier_config(tier):
     if tier == 'thorough':
         return {'runs': 4000, 'wall': 820, 'det_probe': 2}
-    return {'runs': 96, 'wall': 110, 'det_probe': 2}
+    return {'runs': 200, 'wall': 150, 'det_probe': 2}
 
 
 def generate(rng, tier, run, seed=0):
